@@ -3,7 +3,7 @@
 # checks; appends "seed check exit" lines to seeded/matrix.txt
 cd /verif
 seeds=${@:-$(ls seeded | grep -v README | grep -v matrix)}
-declare -A REL=( [C01]="C01 C10 C04" [C02]="C02" [C03]="C03" [C04]="C04" [C05]="C05" [C06]="C06 C09" [C07]="C07" [C09]="C09" [C10]="C10 C09" [C11]="C11 C09" [C12]="C12" [C13]="C13" [C14]="C14" [C15]="C15 C07" [C17]="C17 C11 C01" [C18]="C18 C09" )
+declare -A REL=( [C01]="C01 C10 C04" [C02]="C02 C01" [C03]="C03 C01" [C04]="C04 C01" [C05]="C05 C01" [C06]="C06 C09" [C07]="C07 C04" [C09]="C09" [C10]="C10 C09" [C11]="C11 C09" [C12]="C12" [C13]="C13" [C14]="C14 C07" [C15]="C15 C07" [C17]="C17 C11 C01" [C18]="C18 C09" )
 for s in $seeds; do
   p=${s%%-*}
   for c in ${REL[$p]}; do
